@@ -28,7 +28,7 @@ def dec_tokctx(p, res):
     from .tab import _const
     _, _, optypes = _const(p, 'abbreviation.tokenizer', 'OPERATOR_TYPES')
     for attribute, expression, quote in itertools.product([0, 1, 2], [0, 1, 2], [None, '"', "'"]):
-        ctx = {'group': 0, 'attribute': attribute, 'expression': expression, 'quote': quote}
+        ctx = Rec({'group': 0, 'attribute': attribute, 'expression': expression, 'quote': quote})     # read as ctx['quote'] or ctx.quote
         for ch in ['*', 'a', ' ', '\n', '$'] + sorted(optypes):
             got = bool(ev.call(rep, [ch, ctx]))
             want = ch == '*' and not attribute and not expression
@@ -433,7 +433,8 @@ def own_cacheuse(p, res):
                 is_cfg = (isinstance(t, Class) and t is cfg) or src_of(n.value) in ('config', 'self') and (f.cls is cfg or 'config' in f.params)
                 if not is_cfg:
                     continue
-                if f.qualname in ('emmet.stylesheet.parse', 'emmet.config.Config.__init__'):
+                # the stylesheet snippet conversion: stylesheet.parse and the helpers it was split into (same module)
+                if f.qualname == 'emmet.config.Config.__init__' or (f.module.name == 'emmet.stylesheet' and f.cls is None):
                     res.ok('%s: %s' % (f.short, src_of(p.enclosing_stmt(f, n)).split('\n')[0][:70]))
                 else:
                     res.bad(F('OWN-CACHEUSE', f, n, src_of(p.enclosing_stmt(f, n)).split('\n')[0],
